@@ -535,7 +535,7 @@ func (e *Enc) script(o *Obligation, withModel bool) string {
 		if o.Cover && strings.HasPrefix(l, "(assert") && strings.Contains(l, "(forall ") {
 			continue // reachability guards are decided without the quantified frame facts (weaker assumptions)
 		}
-		if i < o.LoopStart && strings.HasPrefix(l, "(assert") && strings.Contains(l, "(forall ") {
+		if i < o.LoopStart && e.memAxiom[i] {
 			continue // quantified facts about memory before the enclosing loop's havoc (weaker assumptions, still sound)
 		}
 		sb.WriteString(l + "\n")
